@@ -294,6 +294,11 @@ def predicate_limits(I, h):
     edgecell = Cell(Int("u16", 0))
     p = Agg("Predicate", [Cell(Seq([nodecell] * nn)), Cell(Seq([edgecell] * ne))])
     small = Agg("Predicate", [Cell(Seq([])), Cell(Seq([]))])
+    # the wire encoding accepts exactly the same limits (a predicate within limits has an address)
+    nodecell.v.cells[1].v = Agg("ContentAddress", [Cell(Seq([Cell(Int("u8", 0))] * 32, "array"))])
+    enc = h.call("types", "encode_predicate", [h.ref(p)])
+    if (enc.variant == "Ok") != (nn <= 1000 and ne <= 1000):
+        raise Violation(f"encode_predicate {'accepts' if enc.variant == 'Ok' else 'rejects'} {nn} nodes / {ne} edges", E.model_for())
     r = h.call("check", "predicate::check", [h.ref(p)])
     if (r.variant == "Ok") != (nn <= 1000 and ne <= 1000):
         raise Violation(f"predicate::check wrong for {nn} nodes / {ne} edges", E.model_for())
@@ -333,7 +338,7 @@ HARNESSES = {
     "validators_limits": dict(props=["C16"], crates=CR, fn=validators_limits, witnesses=["ok", "rejected"],
                           bound_text="every pair of the six limits at limit-1 / limit / limit+1 / 0, the others at a valid baseline (lengths are concrete: the validators only measure them)",
                           replay=dict(kind="check_set")),
-    "predicate_limits": dict(props=["C16"], crates=CR, fn=predicate_limits, witnesses=["ok", "rejected"],
+    "predicate_limits": dict(props=["C16", "C17"], crates=CR, fn=predicate_limits, witnesses=["ok", "rejected"],
                           bound_text="nodes/edges in {0,999,1000,1001}, predicates in {0,1,99,100,101}, the oversized predicate at any position",
                           replay=dict(kind="check_set")),
 }
